@@ -188,6 +188,16 @@ class Parser:
             tok = buf.cur()
             if not tok:
                 break
+            elif type(tok) is defs.VerbatimToken:
+                # NB: before all tests of tok.txt, the text is arbitrary
+                if tok.environ:
+                    # for Environ() entry in Parameters.environment_defs
+                    buf.next()
+                    buf.back(self.expand_verb_env_token(tok))
+                    continue
+                else:
+                    out.append(defs.ActionToken(tok.pos))
+                    out.append(defs.TextToken(tok.pos, tok.txt))
             elif type(tok) is defs.BeginToken:
                 buf.back(self.begin_environment(buf, tok, False))
                 continue
@@ -236,15 +246,6 @@ class Parser:
                 out.append(defs.ActionToken(tok.pos))
                 txt = self.parms.special_tokens[tok.txt]
                 out.append(defs.TextToken(tok.pos, txt))
-            elif type(tok) is defs.VerbatimToken:
-                if tok.environ:
-                    # for Environ() entry in Parameters.environment_defs
-                    buf.next()
-                    buf.back(self.expand_verb_env_token(tok))
-                    continue
-                else:
-                    out.append(defs.ActionToken(tok.pos))
-                    out.append(defs.TextToken(tok.pos, tok.txt))
             elif type(tok) is defs.LanguageToken:
                 if self.parms.multi_language:
                     self.parms.change_parser_lang(tok)
@@ -280,6 +281,11 @@ class Parser:
         tok = buf.next()    # skip opening { or [
         out = []
         while tok:
+            if type(tok) is defs.VerbatimToken:
+                # arbitrary text: neither brace nor bracket
+                out.append(tok)
+                tok = buf.next()
+                continue
             if tok.txt == '{':
                 lev += 1
             if tok.txt == '}':
